@@ -70,6 +70,16 @@ def fresh_replay(path, hashseed, scratch, timeout=300, with_history=False):
     return None, p.stdout + p.stderr
 
 
+def rule_addendum(pid):
+    """Workloads added after a check's META['rule'] was written (checks/extra_gates.json)."""
+    try:
+        with open(os.path.join(VERIF_DIR, "checks", "extra_gates.json")) as f:
+            add = json.load(f).get("rule_addenda", {}).get(pid)
+    except FileNotFoundError:
+        add = None
+    return f"; later additions: {add}" if add else ""
+
+
 def validate_evidence(ev):
     need = ["property_id", "tier", "seed", "level", "coverage", "wall_s"]
     for k in need:
@@ -216,7 +226,7 @@ def _run_check(pid, tier, base_seed, jobs, meta, scratch, t0):
             "evaluations": agg["evaluations"],
             "distinct_nontrivial": len(nontriv),
             "distinct_total": len(digests),
-            "rule": meta["rule"],
+            "rule": meta["rule"] + rule_addendum(pid),
             "samples": samples[:4] or [{"note": "no non-trivial sample recorded"}],
             "runs_per_hour": int(agg["evaluations"] / max(wall, 1e-6) * 3600),
             "seeds": {"base": base_seed, "derivation": "blake2b(base/property/worker/i)",
